@@ -215,7 +215,7 @@ theorem Conf.metaEffect {r r' : Realm} (h : Conf P r) (e : MetaEffect r r') : Co
   cases e with
   | same => exact h
   | kill sel g ka => exact h
-  | testaments t => exact h
+  | testaments t _ => exact h
   | modify k d =>
     refine ⟨?_, h.2.1, h.2.2⟩
     intro c hc
@@ -224,8 +224,19 @@ theorem Conf.metaEffect {r r' : Realm} (h : Conf P r) (e : MetaEffect r r') : Co
     · simpa [e] using h.1 c0 hc0
     · simpa [e] using h.1 c0 hc0
 
+theorem Conf.recvMsg {r : Realm} (h : Conf P r) (k : SessKey) (m : Msg) : Conf P (r.recvMsg k m) := by
+  rw [recvMsg_eq]
+  split
+  · exact h
+  · split
+    · exact h
+    · split
+      · split <;> exact h
+      · exact (conf_handleMsg _ _ _).mpr h
+
 theorem Conf.runTask {r : Realm} (h : Conf P r) (t : Task) : Conf P (r.runTask t) := by
   cases t with
+  | inMsg k m => exact h.recvMsg k m
   | metaPub p => exact (conf_handlePublish _ _ _ _ _ _ _).mpr h
   | metaInvoke req reg details args kw =>
     rw [runTask_metaInvoke]
@@ -267,13 +278,15 @@ theorem Conf.stepOp {r : Realm} (h : Conf P r) (op : Op)
       rcases List.mem_append.mp hq with hq | hq
       · exact h.2.1 q hq
       · rw [List.mem_singleton.mp hq]; exact hk
-  | msg k m =>
-    rw [stepOp_msg]
-    split
-    · exact h
-    · split
-      · exact h
-      · exact (conf_handleMsg _ _ _).mpr h
+  | msg k m => exact h.recvMsg k m
+  | buffer k =>
+    rw [stepOp_buffer]
+    refine ⟨?_, h.2.1, h.2.2⟩
+    intro c hc
+    obtain ⟨c0, hc0, rfl⟩ := List.mem_map.mp hc
+    by_cases e : (c0.key == k) = true
+    · simpa [e] using h.1 c0 hc0
+    · simpa [e] using h.1 c0 hc0
   | drop k =>
     rw [stepOp_drop]
     split <;> exact h
